@@ -337,11 +337,38 @@ def gen_globals():
            'Definition globals : list (string * string * gkind) := [%s].' % ';\n  '.join('("%s", "%s", %s)' % i for i in items)]
     return '\n'.join(out) + '\n', dict(globals=len(items))
 
+def gen_capi():
+    """inventory of the exported C entry points: for each `extern "C" fn` whether its body runs under catch_panic, whether it
+    reports failures through the last-error slot (unwrap_or_ret*), and whether it is an expression-macro generated mutator"""
+    items = []
+    for f in sorted(glob.glob(os.path.join(REPO, 'c-api/src', '*.rs'))):
+        rel = os.path.relpath(f, REPO)
+        text = strip_comments(open(f).read())
+        for m in re.finditer(r'pub (?:unsafe )?extern "C" fn (\w+)\s*(?:<[^>]*>)?\s*\(', text):
+            name = m.group(1)
+            # body = up to the matching closing brace of the function
+            i = text.index('{', m.end()); depth = 0; j = i
+            while True:
+                if text[j] == '{': depth += 1
+                elif text[j] == '}':
+                    depth -= 1
+                    if depth == 0: break
+                j += 1
+            body = text[i:j + 1]
+            if name.startswith('$'): continue
+            items.append((rel, name, 'catch_panic' in body, bool(re.search(r'unwrap_or_ret\w*!', body)), bool(re.search(r'\.expect\(|assert', body))))
+    if not any(n == 'lol_html_rewriter_write' for _, n, *_ in items): die('c-api entry points not recognised')
+    out = ['(* GENERATED by translator/translate.py -- exported C entry points of c-api/src (functions written out by hand; the macro-generated',
+           '   content mutators share one body) : (file, name, runs under catch_panic, reports through last error, has expect/assert) *)',
+           'From Coq Require Import List String Bool. Import ListNotations. Open Scope string_scope.',
+           'Definition c_entry_points : list (string * string * bool * bool * bool) := [%s].' % ';\n  '.join('("%s", "%s", %s, %s, %s)' % (a, b, str(c).lower(), str(d).lower(), str(e).lower()) for a, b, c, d, e in items)]
+    return '\n'.join(out) + '\n', dict(c_entry_points=len(items))
+
 def main():
     os.makedirs(OUT, exist_ok=True)
     try:
         stats = {}
-        for name, fn in [('StateTable.v', gen_state_table), ('TagTables.v', gen_tag_tables), ('Constants.v', gen_constants), ('Globals.v', gen_globals)]:
+        for name, fn in [('StateTable.v', gen_state_table), ('TagTables.v', gen_tag_tables), ('Constants.v', gen_constants), ('Globals.v', gen_globals), ('CApi.v', gen_capi)]:
             text, st = fn()
             path = os.path.join(OUT, name)
             old = open(path).read() if os.path.exists(path) else None
